@@ -179,6 +179,7 @@ class Program(object):
                         self.inlined.append((name + '.' + unit, n_sites))
                         self._expanded.append((tree, fnode))
                     self.new_temps += inline.inline_new_temps(name, tree)
+                    self.new_temps += inline.inline_new_constants(name, tree)
                     from .canon import canonical
                     tree = canonical(tree)
                     from . import alpha
